@@ -185,3 +185,12 @@ PROPS["C09"]["claim"] = PROPS["C09"]["explanation"] = (
     "(marked by *item* index, whatever multi-item words precede it), every later item is a PosWord and unconsumed, the ledger is well formed over the whole line. "
     "Downstream: PosWord never matches a flag/argument name, command or value; take_positional_word reports strict <=> PosWord and delivers the word verbatim; parse_pos_word implements the strictness table; "
     "StrictPos is final and NonStrictPos catchable.")
+
+prop("C16", "proof",
+     "section extraction is proved (docgen configuration): extract_sections emits the section of a level followed, for every visible command of that level in item-list order, by the sections of that command "
+     "with the path extended by its name - every level reachable through visible subcommands, once, in order, nothing for hidden ones (functional correctness; termination of the recursion is not proved). "
+     "html style transitions (change_style) close/open tags in nesting order for all 8x8 style pairs (Kani, complete for that function). Roff escaping is out of reach of both tools (defect D6 there was found by reading); "
+     "angle-bracket escaping, markdown and the per-section rendering are not decided.",
+     ["roff escape()/Roff rendering (K08 dropped after measurement)", "render_html loop (`<`/`>` replacement)", "markdown rendering", "rendering of each section (write_help_item etc.)", "termination of extract_sections"],
+     note=VERUS_NOTE, needs_docgen=True,
+     technique="Verus proof of extract_sections against `levels` (docgen configuration) + Kani model checking of change_style over its full domain")
